@@ -38,8 +38,10 @@ Cand(lo, hi, q, w) ==
 LegSets(a, s, w) ==
   LET d == cfg.dt[s] IN
   CASE a.kind \in {"contract", "multi"} ->
-         << Cand(Min2(0, a.lo[s]) * d, Min2(0, a.hi[s]) * d, a.q, w),
-            Cand(Max2(0, a.lo[s]) * d, Max2(0, a.hi[s]) * d, a.q, w) >>
+         \* a contract that can only deliver (or only take) over the whole horizon has one leg only: the other
+         \* leg is identically zero and is not widened for near-misses
+         << IF \A u \in 1..cfg.T : a.lo[u] >= 0 THEN {0} ELSE Cand(Min2(0, a.lo[s]) * d, Min2(0, a.hi[s]) * d, a.q, w),
+            IF \A u \in 1..cfg.T : a.hi[u] <= 0 THEN {0} ELSE Cand(Max2(0, a.lo[s]) * d, Max2(0, a.hi[s]) * d, a.q, w) >>
     [] a.kind = "transport" -> << Cand(a.lo * d, a.hi * d, a.q, w) >>
     [] a.kind = "storage"   -> << Cand(-a.cin * d, 0, a.q, w), Cand(0, a.cout * d, a.q, w) >>
     [] a.kind = "orderbook" -> << >>
@@ -51,15 +53,20 @@ Interchangeable(a) ==
     [] a.kind = "storage" -> a.eff = <<1, 1>> /\ a.costin = 0 /\ a.costout = 0 /\ a.nin = a.nout
     [] OTHER -> FALSE
 
+NetRange(a, s) ==     \* range of the net volume of an asset whose two legs are interchangeable
+  LET d == cfg.dt[s] IN
+  IF a.kind = "storage" THEN <<-a.cin * d, a.cout * d>> ELSE <<a.lo[s] * d, a.hi[s] * d>>
+
 LegTuples(a, s, w) ==
   IF ~Active(cfg, a, s) /\ a.kind # "orderbook"
   THEN (IF w = 0 THEN { [k \in 1..NLegs(a) |-> 0] }
         ELSE { [k \in 1..NLegs(a) |-> 0], [k \in 1..NLegs(a) |-> IF k = NLegs(a) THEN 1 ELSE 0] })
+  ELSE IF Interchangeable(a)
+  THEN { <<Min2(q, 0), Max2(q, 0)>> : q \in Cand(NetRange(a, s)[1], NetRange(a, s)[2], a.q, w) }
   ELSE LET ls == LegSets(a, s, w) IN
        CASE Len(ls) = 0 -> { <<>> }
          [] Len(ls) = 1 -> { <<x>> : x \in ls[1] }
-         [] Len(ls) = 2 -> { lg \in { <<x, y>> : x \in ls[1], y \in ls[2] } :
-                               Interchangeable(a) => (lg[1] = 0 \/ lg[2] = 0) }
+         [] Len(ls) = 2 -> { <<x, y>> : x \in ls[1], y \in ls[2] }
 
 \* results of all moves of asset i in step s; bad moves only if they may be relaxed
 Moves(i, s, w) ==
